@@ -36,7 +36,7 @@ ANCHORS = [
     "acnportal.acnsim.models.battery:Linear2StageBattery._charge_stepwise",
     "acnportal.acnsim.models.ev:EV.charge",
 ]
-REQUIRED = ["aborted_runs_judged_including_the_aborted_period", "simulations_with_one_battery_object_shared_by_several_evs", "charge_calculation_switched_on_a_living_battery", "second_simulations_with_reset_evs", "calls_with_voltage_or_period_changing_on_one_battery", "battery_json_round_trips_mid_sequence", "charge_calls_judged", "regime:ideal", "regime:l2-continuous", "regime:l2-stepwise",
+REQUIRED = ["aborted_runs_judged_including_the_aborted_period", "sequences_near_the_top_of_the_float_range", "simulations_with_one_battery_object_shared_by_several_evs", "charge_calculation_switched_on_a_living_battery", "second_simulations_with_reset_evs", "calls_with_voltage_or_period_changing_on_one_battery", "battery_json_round_trips_mid_sequence", "charge_calls_judged", "regime:ideal", "regime:l2-continuous", "regime:l2-stepwise",
             "regime:l2-continuous+noise", "regime:l2-stepwise+noise", "sim_cells_checked", "suite:charge_calls_judged", "resets_above_capacity", "resets_within_capacity"]
 BUDGET_S = {"quick": 200, "thorough": 2400}
 
@@ -124,8 +124,19 @@ def _seq_case(rng, force=None):
         b["calc"] = "continuous" if model == "l2c" else "stepwise"
         b["tsoc"] = rng.choice([0.8, 0.0, 0.99, round(rng.uniform(0, 0.99), 3)])
         b["noise"] = rng.choice([0, 0, _logu(rng, 0.01, 5)])
-    return {"kind": "seq", "batt": b, "V": rng.choice([120, 208, 240, 277, round(rng.uniform(100, 500), 1)]),
-            "T": rng.choice([0.1, 0.5, 1, 5, 7.5, 15, 60, 120, round(rng.uniform(0.1, 120), 2)]),
+    giant = rng.random() < 0.05
+    if giant:
+        # the same physics near the top of the float range (every quantity representable, products of two of them not): the
+        # bounds are ratios and differences of like quantities and hold at any scale
+        k_ = 10 ** rng.choice([rng.uniform(145, 160), rng.uniform(290, 301)])
+        b["cap"], b["init"], b["maxp"] = b["cap"] * k_, b["init"] * k_, b["maxp"] * k_  # (one factor: the ratios stay everyday ones)
+        if model != "ideal":
+            b["noise"] = 0
+            b["tsoc"] = rng.choice([0.8, 0.5, 0.2, 0.0])
+        if model != "ideal" and rng.random() < 0.6:
+            b["init"] = b["cap"] * rng.uniform(max(b["tsoc"], 0.05), 0.97)  # in the tail, not full
+    return {"kind": "seq", "giant": giant, "batt": b, "V": rng.choice([120, 208, 240, 277, round(rng.uniform(100, 500), 1)]),
+            "T": rng.choice([0.1, 0.5, 1, 5, 7.5, 15, 60, 120, round(rng.uniform(0.1, 120), 2)]) if not giant else rng.choice([1, 5, 60, 1440, 60000]),
             "n": rng.choice([1, 5, 30, 100, 200]), "pseed": rng.randrange(1 << 30),
             # one battery object seen by supplies of different voltage / period lengths from call to call (an EV reused on
             # another network, stations of different voltage), and written to JSON and restored in the middle
@@ -221,6 +232,8 @@ def _run_seq(case, obs):
     rng = random.Random(case["pseed"])
     np.random.seed(case["pseed"] % (1 << 31))
     name = _regime_name(b)
+    if case.get("giant"):
+        obs.ev("sequences_near_the_top_of_the_float_range")
     n0 = obs.events["nontrivial_calls"]
     for p in _pilots(case, rng, b):
         c0, cap, _, _ = battery_state(batt)
